@@ -391,6 +391,19 @@ def C_unchanged_pairs(repo, clause):
         return None
     io, ii = enum_info(outer), enum_info(inner)
     if io is None or ii is None:
+        # a scan that does not restart: `for j in range(start, n)` with a start that is advanced inside the loops examines only the pairs (i, j) with j beyond the
+        # previous hit - two patterns that list their common atoms in different orders then lose pairs
+        for l in (inner, outer):
+            if isinstance(l.iter, ast.Call) and call_name(l.iter) == "range" and len(l.iter.args) >= 2 and isinstance(l.iter.args[0], ast.Name):
+                lo = l.iter.args[0].id
+                moved = [x for x in ast.walk(outer) if isinstance(x, (ast.Assign, ast.AugAssign)) and any(isinstance(t, ast.Name) and t.id == lo for t in (x.targets if isinstance(x, ast.Assign) else [x.target]))]
+                if moved:
+                    obs.append(Ob("Cpair", clause, fn, l, False,
+                                  "`%s` starts at `%s`, which is advanced inside the scan (`%s`): after a hit the candidates before it are never examined again, so the pairing depends on the two "
+                                  "structures listing their common atoms in the same ORDER - common atoms listed in another order are reported as changed" % (
+                                      ast.unparse(l).split("\n")[0][:70], lo, ast.unparse(moved[0])[:40]), slot="pair-scan-restarts", positive="robust"))
+                    obs.append(Ob("Cpair", clause, fn, a, False, "pair condition: loops are not enumerate over <structure>.positions", slot="pair-condition", undecided=True))
+                    return obs
         raise AnalysisError("C08: loops are not enumerate over <structure>.positions")
     gs = norm_guards(fn, a)
     dist_ok = el_ok = False
@@ -407,6 +420,10 @@ def C_unchanged_pairs(repo, clause):
             inner = e.left
         if inner is None:
             return False
+        return _is_squared_distance(inner)
+
+    def _is_squared_distance(inner):
+        """dot(d, d), d @ d, sum(d ** 2), sum(d * d): the SQUARED Euclidean length of d"""
         if isinstance(inner, ast.Call) and call_name(inner) in ("dot", "vdot", "inner") and len(inner.args) == 2 and nf(inner.args[0]) == nf(inner.args[1]):
             return True
         if isinstance(inner, ast.BinOp) and isinstance(inner.op, ast.MatMult) and nf(inner.left) == nf(inner.right):
@@ -416,6 +433,18 @@ def C_unchanged_pairs(repo, clause):
             if isinstance(sq, ast.BinOp) and ((isinstance(sq.op, ast.Pow) and const_value(sq.right) == 2) or (isinstance(sq.op, ast.Mult) and nf(sq.left) == nf(sq.right))):
                 return True
         return False
+
+    def _tol_degree(e):
+        """1 for the bare tolerance parameter, 2 for its square, None otherwise"""
+        e = expand(fn, e)
+        if isinstance(e, ast.Name) and e.id in fn.params:
+            return 1
+        if isinstance(e, ast.BinOp) and isinstance(e.op, ast.Pow) and isinstance(e.left, ast.Name) and e.left.id in fn.params and const_value(e.right) == 2:
+            return 2
+        if isinstance(e, ast.BinOp) and isinstance(e.op, ast.Mult) and isinstance(e.left, ast.Name) and isinstance(e.right, ast.Name) and e.left.id == e.right.id and e.left.id in fn.params:
+            return 2
+        return None
+    dim_clash = None
     def _positive_parts(t, pol):
         """the comparisons that HOLD when guard t is taken with polarity pol (conjunctions split; a negated comparison / disjunction turned around)"""
         if isinstance(t, ast.UnaryOp) and isinstance(t.op, ast.Not):
@@ -438,10 +467,15 @@ def C_unchanged_pairs(repo, clause):
         for p in parts:
             if isinstance(p, ast.Compare) and len(p.ops) == 1:
                 pl = expand(fn, p.left)
-                if isinstance(p.ops[0], (ast.Lt, ast.LtE)) and isinstance(p.comparators[0], ast.Name) and p.comparators[0].id in fn.params:
+                td = _tol_degree(p.comparators[0]) if isinstance(p.ops[0], (ast.Lt, ast.LtE)) else None
+                if td is not None:
                     names = names_in(pl)
-                    if _is_distance(pl):
+                    if _is_distance(pl) and td == 1:
                         dist_ok = io[1] in names and ii[1] in names
+                    elif _is_squared_distance(pl) and td == 2:
+                        dist_ok = io[1] in names and ii[1] in names
+                    elif (_is_squared_distance(pl) and td == 1) or (_is_distance(pl) and td == 2):
+                        dim_clash = "`%s` compares %s with %s" % (ast.unparse(p)[:70], "the SQUARED distance" if td == 1 else "the distance", "the tolerance itself" if td == 1 else "the SQUARED tolerance")
                     elif io[1] in names and ii[1] in names:
                         dist_unrecognised = True
                 if isinstance(p.ops[0], ast.Eq):
@@ -449,7 +483,10 @@ def C_unchanged_pairs(repo, clause):
                     el_ok = txt == {"%s.elements[%s]" % (io[2], io[0]), "%s.elements[%s]" % (ii[2], ii[0])}
     obs.append(Ob("Cpair", clause, fn, a, dist_ok and el_ok,
                   "atoms are paired only under (distance of the two positions < max_delta)=%s AND (equal element of exactly these two atoms)=%s" % (dist_ok, el_ok),
-                  slot="pair-condition", undecided=dist_unrecognised and not dist_ok and el_ok))
+                  slot="pair-condition", undecided=dist_unrecognised and not dist_ok and el_ok and not dim_clash))
+    if dim_clash:
+        obs.append(Ob("Cpair", clause, fn, a, False, dim_clash + ": a length and a squared length are compared, so the effective tolerance is the square root (or the square) of the documented one - "
+                      "atoms that moved by much more than max_delta count as unchanged (or identical atoms as changed)", slot="pair-tolerance-dimension", positive="robust"))
     v = a.args[0]
     ok = isinstance(v, ast.Tuple) and [ast.unparse(e) for e in v.elts] == [io[0], ii[0]] and io[2] == fn.params[0] and ii[2] == fn.params[1]
     obs.append(Ob("Cpair", clause, fn, a, ok, "pair = (index in the first argument, index in the second argument)", slot="pair-order"))
@@ -1408,14 +1445,34 @@ def _roll_sense_by_terms(fn):
     if cs is None:
         return None
     par, anti = [], []
-    for conds, k in cs:
-        tests = [(c, pol) for c, pol in conds if mentions(c, "cross") and (mentions(c, "isclose") or mentions(c, "allclose"))]
-        if len(tests) != 1 or len(conds) != 1:
+
+    def gen_eval(c, pval):
+        """truth of a branch condition in the generic case (the angle is neither 0 nor pi) when the parallel test has the value pval; None = cannot tell"""
+        if not isinstance(c, tuple) or not c:
             return None
-        c, pol = tests[0]
-        while isinstance(c, tuple) and c[0] == "not":
-            c, pol = c[1], not pol
-        (par if pol else anti).append(k)
+        op = c[0]
+        if op == "not":
+            v = gen_eval(c[1], pval)
+            return None if v is None else not v
+        if op in ("and", "or"):
+            vals = [gen_eval(x, pval) for x in c[1:]]
+            if any(v is None for v in vals):
+                return None
+            return all(vals) if op == "and" else any(vals)
+        if mentions(c, "cross") and (mentions(c, "isclose") or mentions(c, "allclose")):
+            return pval
+        if op in ("eq", "in", "ne", "notin") and len(c) == 3 and find(c, lambda x: len(x) >= 3 and x[0] == "mcall" and x[2] == "arccos") is not None:
+            return op in ("ne", "notin")
+        return None
+    for conds, k in cs:
+        if not conds:
+            return None
+        for pval, bucket in ((True, par), (False, anti)):
+            vals = [gen_eval(c, pval) for c, pol in conds]
+            if any(v is None for v in vals):
+                return None
+            if all(v == pol for v, (c, pol) in zip(vals, conds)):
+                bucket.append(k)
     if not par or not anti:
         return None
     ok = all(k == 0.5 for k in par) and all(k == -0.5 for k in anti)
